@@ -35,6 +35,7 @@ type Cfg struct {
 	Prompt  bool   `json:"prompt"`
 	Collide bool   `json:"collide"`
 	Reinc   bool   `json:"reinc"`
+	Label   bool   `json:"label"` // both tasks carry the same label: (the state file is named after the label)
 }
 
 type Step struct {
@@ -62,7 +63,7 @@ func b2s(b bool) string {
 }
 
 func (c Cfg) tla() string {
-	return fmt.Sprintf(`[method |-> "%s", gen |-> %s, status |-> %s, prompt |-> %s, collide |-> %s, reinc |-> %s]`, c.Method, b2s(c.Gen), b2s(c.Status), b2s(c.Prompt), b2s(c.Collide), b2s(c.Reinc))
+	return fmt.Sprintf(`[method |-> "%s", gen |-> %s, status |-> %s, prompt |-> %s, collide |-> %s, reinc |-> %s]`, c.Method, b2s(c.Gen), b2s(c.Status), b2s(c.Prompt), b2s(c.Collide || c.Label), b2s(c.Reinc))
 }
 
 func (s Step) tla() string {
@@ -128,6 +129,9 @@ func taskfile(c Cfg) string {
 		}
 		if c.Prompt {
 			b.WriteString("    prompt: 'go?'\n")
+		}
+		if c.Label {
+			b.WriteString("    label: 'same label'\n")
 		}
 		b.WriteString("    cmds:\n      - echo 1 >> \"$TRACE\"\n      - task: pre\n      - test ! -f \"$CTL/cancelsib\" || sleep 1\n      - test ! -f \"$CTL/fail1\"\n      - test ! -f \"$CTL/kill1\" || sh -c 'kill -KILL $PPID'\n")
 		if c.Gen {
@@ -396,6 +400,9 @@ func configs() []Cfg {
 		cs = append(cs, Cfg{Method: m, Gen: true, Prompt: true})
 		cs = append(cs, Cfg{Method: m, Prompt: true})
 		cs = append(cs, Cfg{Method: m, Collide: true})
+		if m == "checksum" { // the timestamp marker is named after the task, not the label
+			cs = append(cs, Cfg{Method: m, Label: true})
+		}
 		cs = append(cs, Cfg{Method: m, Reinc: true})
 		cs = append(cs, Cfg{Method: m, Gen: true, Reinc: true})
 	}
@@ -540,7 +547,7 @@ func Pretty(h History) string {
 		}
 	}
 	c := h.Cfg
-	return fmt.Sprintf("[%s gen=%v status=%v prompt=%v collide=%v reinclude-x=%v] %s", c.Method, c.Gen, c.Status, c.Prompt, c.Collide, c.Reinc, strings.Join(p, " ; "))
+	return fmt.Sprintf("[%s gen=%v status=%v prompt=%v collide=%v reinclude-x=%v] %s", c.Method, c.Gen, c.Status, c.Prompt, c.Collide || c.Label, c.Reinc, strings.Join(p, " ; "))
 }
 
 var _ = runtime.NumCPU
